@@ -103,7 +103,16 @@ macro_rules! run_multi {
 macro_rules! run_size {
     ($T:ty, $key:expr, $t0:expr, $t1:expr, $use_new:expr, $blk:expr) => {{
         let k = GenericArray::from_slice($key);
-        let fish = if $use_new { <$T>::new(k) } else { <$T>::with_tweak(k, $t0, $t1) };
+        let fish = if $use_new {
+            // the zero-tweak constructors: `new` and the provided `new_from_slice`
+            if $key[0] & 1 == 0 {
+                <$T>::new(k)
+            } else {
+                <$T>::new_from_slice($key).expect("key of the exact size")
+            }
+        } else {
+            <$T>::with_tweak(k, $t0, $t1)
+        };
         let mut e = GenericArray::clone_from_slice($blk);
         fish.encrypt_block(&mut e);
         let mut de = e.clone();
